@@ -42,6 +42,13 @@ Proof. exact raw_name_refuted. Qed.
 Check c30_raw_name_refuted : exists n, lex1 (47 :: n ++ [32]) <> (TName n, [32]) /\ parse (ser raw_name (ODict [(n, ORef 5 0)])) = None.
 Print Assumptions c30_raw_name_refuted.
 
+(** pages channel: the Coq judgement is exactly "every name resolves, on its page, to the resource registered there" *)
+Theorem c30_pages_judgement_sound : forall c, pages_code c = 0 <->
+  forall pg n e f, In (pg, n, e, f) c -> f = Some e.
+Proof. exact pages_code_sound. Qed.
+Check c30_pages_judgement_sound : forall c, pages_code c = 0 <-> forall pg n e f, In (pg, n, e, f) c -> f = Some e.
+Print Assumptions c30_pages_judgement_sound.
+
 Example c30_nonvacuous : valid_resource_name (b "Im{1") = false /\ valid_resource_name (b "Fm0+x") = true
                           /\ predicted EImage (b "My Image") = 2 /\ predicted EForm (b "My Image") = 1.
 Proof. exact gate_nonvacuous. Qed.
